@@ -1,10 +1,61 @@
 import Pendulum.Drv.Util
-/-! request handler for property C16 (stub until the property is built) -/
+import Pendulum.Drv.DTUtil
+import Pendulum.Model.WeekNav
+/-! request handler for property C16 (weekday navigation). `<u>` = 0 month | 1 quarter | 2 year;
+`<wd>` = 0 (Monday) … 6 (Sunday), `-1` = no weekday given. Dates are proleptic ordinals.
+  `dnext|dprev <ord> <wd>`                       → `ok <ord>`
+  `dfirst|dlast <u> <ord> <wd|-1>`               → `ok <ord>`
+  `dnth <u> <ord> <n> <wd>`                      → `ok <ord>` / `err PendulumException`
+  `tnext|tprev <zref> <wall> <fold> <wd> <keep>` → `ok <wall> <offset> <fold>` / `err <Kind>`
+  `tfirst|tlast <u> <zref> <wall> <fold> <wd|-1>`
+  `tnth <u> <zref> <wall> <fold> <n> <wd>`       → … / `err PendulumException` -/
 namespace Pendulum.Drv.C16
-open Pendulum Pendulum.Drv
+open Pendulum Pendulum.Drv Pendulum.WeekNav Pendulum.DTOps
 
-def handle (_zs : Zones) (ws : List String) : Option String :=
+def unitOf : String → Option Unit'
+  | "0" => some .month | "1" => some .quarter | "2" => some .year | _ => none
+
+def wdOpt (w : String) : Option (Option Int) := do
+  let x ← w.toInt?
+  some (if x < 0 then none else some x)
+
+def handle (zs : Zones) (ws : List String) : Option String :=
   match ws with
+  | ["dnext", o, wd] => do
+    let o ← o.toInt?; let wd ← wd.toInt?
+    some (okInts [next o wd])
+  | ["dprev", o, wd] => do
+    let o ← o.toInt?; let wd ← wd.toInt?
+    some (okInts [previous o wd])
+  | ["dfirst", u, o, wd] => do
+    let u ← unitOf u; let o ← o.toInt?; let wd ← wdOpt wd
+    some (okInts [firstOf u o wd])
+  | ["dlast", u, o, wd] => do
+    let u ← unitOf u; let o ← o.toInt?; let wd ← wdOpt wd
+    some (okInts [lastOf u o wd])
+  | ["dnth", u, o, n, wd] => do
+    let u ← unitOf u; let o ← o.toInt?; let n ← n.toNat?; let wd ← wd.toInt?
+    match nthOf u o n wd with
+    | some r => some (okInts [r])
+    | none => some "err PendulumException"
+  | ["tnext", z, w, f, wd, keep] => do
+    let v ← parseV zs z w f; let wd ← wd.toInt?
+    some (replyV (dtNext v wd (keep == "1")))
+  | ["tprev", z, w, f, wd, keep] => do
+    let v ← parseV zs z w f; let wd ← wd.toInt?
+    some (replyV (dtPrevious v wd (keep == "1")))
+  | ["tfirst", u, z, w, f, wd] => do
+    let u ← unitOf u; let v ← parseV zs z w f; let wd ← wdOpt wd
+    some (replyV (dtFirstOf u v wd))
+  | ["tlast", u, z, w, f, wd] => do
+    let u ← unitOf u; let v ← parseV zs z w f; let wd ← wdOpt wd
+    some (replyV (dtLastOf u v wd))
+  | ["tnth", u, z, w, f, n, wd] => do
+    let u ← unitOf u; let v ← parseV zs z w f; let n ← n.toNat?; let wd ← wd.toInt?
+    match dtNthOf u v n wd with
+    | .ok (some r) => some (okV r)
+    | .ok none => some "err PendulumException"
+    | .error e => some ("err " ++ e.name)
   | _ => none
 
 end Pendulum.Drv.C16
